@@ -618,6 +618,9 @@ func runC12(c *Ctx, r *Report) {
 		})
 		r.Check(sym, "C12.R5", ssaFuncName(tfn), "TypeEqual tests a == b", c.Pos(tfn.Pos()), "TypeEqual no longer contains the reflexive a == b test")
 	}
+	// shared C07.R11: comparing never panics inside Go's own interface equality
+	r.Rule("C07.R11", "(shared) no == / != between two interface values that may both hold an uncomparable struct")
+	c.checkInterfaceEquality(r, "C07.R11")
 	// shared C01.R7: tag RETURN never reaches Cmp because control objects never become data
 	r.Rule("C01.R7", "(shared) control objects (break/continue/return) are never stored as values, so the RETURN panic arm of Cmp is unreachable")
 	c.checkControlObjects(r, "C01.R7")
